@@ -140,7 +140,20 @@ struct StaticCastOverflowImpl<Source, Dest, OverflowSituation::FLOAT_TO_ANYTHING
         // this would have been categorized as `DEST_BOUNDS_CONTAIN_SOURCE_BOUNDS` rather than
         // `FLOAT_TO_ANYTHING`.
         return (x < static_cast<Source>(std::numeric_limits<Dest>::lowest())) ||
-               (x > static_cast<Source>(std::numeric_limits<Dest>::max()));
+               exceeds_max(x, std::is_integral<Dest>{});
+    }
+
+ private:
+    static constexpr bool exceeds_max(Source x, std::false_type) {
+        return x > static_cast<Source>(std::numeric_limits<Dest>::max());
+    }
+
+    // The max of an integral `Dest` is one less than a power of 2, and may not be exactly
+    // representable in `Source`: the cast could round it up to that power of 2, which is itself out
+    // of range.  The power of 2 is always exactly representable, so we compare against it.
+    static constexpr bool exceeds_max(Source x, std::true_type) {
+        return exceeds_max(x, std::false_type{}) ||
+               (x >= static_cast<Source>(std::numeric_limits<Dest>::max() / 2 + 1) * Source{2});
     }
 };
 
